@@ -47,8 +47,32 @@ const BAD_LABELS: &[&str] =
     &["", "9a", "a:b", "a-b", "a b", "é", "ß", "а", "٣", "x٣", "Ａ", "a１", "a.b", "x²", "ǅ", "a\n", "\u{0}"];
 const REG_LABELS: &[&str] = &["r1", "env", "r_2", "dc"];
 
+/// Non-ASCII characters that a Unicode case mapping turns into pure ASCII identifier text (KELVIN SIGN
+/// -> k, LONG S -> S, sharp s -> SS, the ff/fi/fl/st ligatures, ...): exactly the characters a validator
+/// that folds case with the Unicode instead of the ASCII mapping accepts by mistake. Computed, not
+/// hand-picked; each entry is the character embedded in an otherwise valid name.
+fn confusables() -> &'static Vec<&'static str> {
+    static POOL: std::sync::OnceLock<Vec<&'static str>> = std::sync::OnceLock::new();
+    POOL.get_or_init(|| {
+        let mut v: Vec<&'static str> = vec![];
+        for u in 0x80u32..0x11_0000 {
+            let Some(c) = char::from_u32(u) else { continue };
+            let ascii_ident = |s: String| !s.is_empty() && s.chars().all(|x| x.is_ascii_alphanumeric() || x == '_');
+            if ascii_ident(c.to_lowercase().collect()) || ascii_ident(c.to_uppercase().collect()) {
+                v.push(Box::leak(format!("a{}", c).into_boxed_str()));
+                v.push(Box::leak(format!("{}a", c).into_boxed_str()));
+            }
+        }
+        v
+    })
+}
+
 fn gen_part(src: &mut Src, good: &[&'static str], bad: &[&'static str], p_bad: u32) -> &'static str {
     if src.chance(p_bad) {
+        if src.chance(48) {
+            let c = confusables();
+            return c[src.below(c.len())];
+        }
         *src.pick(bad)
     } else {
         *src.pick(good)
@@ -100,9 +124,71 @@ const CTORS: &[Ctor] = &[
     Ctor::Desc,
 ];
 
+/// One cell of the exhaustive scan: scalar value `u` as leading / non-leading character of a metric
+/// name and of a label name, through `Desc::new`.
+fn scan_cell(u: u32, variant: u8) -> Result<(), (String, String)> {
+    let Some(c) = char::from_u32(u) else { return Ok(()) };
+    let (name, is_label) = match variant % 4 {
+        0 => (format!("{}ab", c), false),
+        1 => (format!("a{}b", c), false),
+        2 => (format!("{}ab", c), true),
+        _ => (format!("a{}b", c), true),
+    };
+    let (r, want) = if is_label {
+        (Desc::new("m".into(), "h".into(), vec![name.clone()], HashMap::new()), label_name_ok(&name))
+    } else {
+        (Desc::new(name.clone(), "h".into(), vec![], HashMap::new()), metric_name_ok(&name))
+    };
+    if r.is_ok() != want {
+        let sig = if r.is_ok() {
+            if is_label { "invalid-label-name-accepted" } else { "invalid-metric-name-accepted" }
+        } else {
+            "valid-metric-rejected"
+        };
+        return Err((sig.to_string(), format!("Desc::new with {} {:?} (U+{:04X} {}) returned {} but the statement requires {}", if is_label { "label name" } else { "metric name" }, name, u, if variant % 2 == 0 { "leading" } else { "non-leading" }, if r.is_ok() { "Ok" } else { "Err" }, if want { "Ok" } else { "Err" })));
+    }
+    Ok(())
+}
+
 impl Property for C09 {
     fn id(&self) -> &'static str {
         "C09"
+    }
+    fn post(&self, _tier: Tier, _seed: u64, stats: &mut crate::engine::Stats) -> Result<(), (String, String, Vec<u8>)> {
+        // exhaustive over a finite sub-space: every Unicode scalar value as leading and as non-leading
+        // character of a metric name and of a label name (4 x 1 112 064 constructor calls)
+        let found: std::sync::Mutex<Option<(String, String, Vec<u8>)>> = std::sync::Mutex::new(None);
+        let cells = std::sync::atomic::AtomicU64::new(0);
+        std::thread::scope(|s| {
+            for k in 0..8u32 {
+                let found = &found;
+                let cells = &cells;
+                s.spawn(move || {
+                    let mut n = 0u64;
+                    let mut u = k;
+                    while u < 0x11_0000 {
+                        for variant in 0..4u8 {
+                            n += 1;
+                            if let Err((sig, d)) = scan_cell(u, variant) {
+                                let mut f = found.lock().unwrap();
+                                if f.is_none() {
+                                    let b = u.to_be_bytes();
+                                    *f = Some((sig, d, vec![0xFF, b[0], b[1], b[2], b[3], variant]));
+                                }
+                            }
+                        }
+                        u += 8;
+                    }
+                    cells.fetch_add(n, std::sync::atomic::Ordering::Relaxed);
+                });
+            }
+        });
+        stats.extra.push(("code_point_scan_cells".into(), serde_json::json!(cells.load(std::sync::atomic::Ordering::Relaxed))));
+        stats.extra.push(("code_point_scan_exhaustive".into(), serde_json::json!(true)));
+        match found.into_inner().unwrap() {
+            Some(f) => Err(f),
+            None => Ok(()),
+        }
     }
     fn rule(&self) -> &'static str {
         "case = constructor (5 scalar with_opts, 5 *Vec::new, PullingGauge::new, Desc::new) x namespace/subsystem/name/help/ \
@@ -128,6 +214,17 @@ impl Property for C09 {
     }
 
     fn run(&self, src: &mut Src, rep: &mut Report) -> Verdict {
+        // a 6-byte case starting with 0xFF is one cell of the exhaustive per-code-point scan (see `post`)
+        if src.data().len() == 6 && src.data()[0] == 0xFF {
+            let _ = src.byte();
+            let u = src.u32raw();
+            let variant = src.byte();
+            rep.class("code-point-scan-cell");
+            return match scan_cell(u, variant) {
+                Ok(()) => Verdict::Pass,
+                Err((sig, d)) => fail(sig, d),
+            };
+        }
         let ctor = *src.pick(CTORS);
         let p_bad = if src.chance(128) { 0 } else { 40 };
         let (ns, sub) = if matches!(ctor, Ctor::Pulling | Ctor::Desc) {
